@@ -138,7 +138,7 @@ def check_refine(ctx):
                     return self.generic_visit(n)
 
                 def visit_Call(self, n):
-                    if norm_src(n) == "%s.get_depth()" % X:
+                    if norm_src(n) in ["%s.get_depth()" % X] + ["%s.get_depth()" % norm_src(d.value) for d in ds]:
                         return ast.Name(id="DEPTH", ctx=ast.Load())
                     return self.generic_visit(n)
             try:
@@ -157,6 +157,9 @@ def check_refine(ctx):
         # may only choose between the two expansion calls (newlayer or not), and no early exit precedes the test
         others = [(a, t) for a, t, lab, e in C.facts_at(g, at) if not (a[0] in ("<=", "<") and "sqrt" in (a[1] + a[2]))]
         extra = [a for a, t in others if not (any(x in (a[1] + a[2]) for x in ("self.partition.get_depth()", "self.partition.depth")))]
+        # `X is not None` after the radius test dereferenced X (X.get_depth()) is vacuous
+        if ok:
+            extra = [a for a in extra if not (a[0] == "is not" and a[1] in [X] + [norm_src(d.value) for d in ds] and a[2] == "None")]
         test_node = cmp_facts[0][1] if cmp_facts else None
         early = []
         if test_node is not None:
